@@ -6,6 +6,7 @@
 import ElfVerif.Model.Prog
 import ElfVerif.Generated.ParseProgs
 import ElfVerif.Generated.AbiConsts
+import ElfVerif.Generated.Accessors
 namespace Elf
 
 /-- An entry kind: generated program, declared size, and record constructor. -/
@@ -83,10 +84,15 @@ def Symbol.ofVals : List Int → Option Symbol
 
 def Symbol.ep : EntryParser Symbol := ⟨Gen.prog_Symbol, Gen.size_Symbol, Symbol.ofVals⟩
 
-def Symbol.isUndefined (s : Symbol) : Bool := s.st_shndx == Abi.SHN_UNDEF
-def Symbol.stSymtype (s : Symbol) : Nat := s.st_info &&& 0xf
-def Symbol.stBind (s : Symbol) : Nat := s.st_info >>> 4
-def Symbol.stVis (s : Symbol) : Nat := s.st_other &&& 0x3
+/- The derived accessors are the *generated* translations of the Rust bodies (Generated/Accessors.lean), applied to
+   exactly the fields the ABI macros are functions of — passed by name, so an accessor that starts to read another
+   field no longer fits here.  Each argument is reduced to the width of the Rust field (`u8`, `u16`): the records the
+   parsers build are already in range, so this changes no value, and it makes the specification lemmas hold for every
+   record without a range premise. -/
+def Symbol.isUndefined (s : Symbol) : Bool := Gen.acc_Symbol_is_undefined (st_shndx := s.st_shndx % 65536)
+def Symbol.stSymtype (s : Symbol) : Nat := Gen.acc_Symbol_st_symtype (st_info := s.st_info % 256)
+def Symbol.stBind (s : Symbol) : Nat := Gen.acc_Symbol_st_bind (st_info := s.st_info % 256)
+def Symbol.stVis (s : Symbol) : Nat := Gen.acc_Symbol_st_vis (st_other := s.st_other % 256)
 
 structure Rel where
   r_offset : Nat
@@ -121,6 +127,9 @@ structure Dyn where
 def Dyn.ofVals : List Int → Option Dyn
   | [a, b] => some ⟨a, b.toNat⟩
   | _ => none
+
+def Dyn.dVal (d : Dyn) : Nat := Gen.acc_Dyn_d_val (d_un := d.d_un)
+def Dyn.dPtr (d : Dyn) : Nat := Gen.acc_Dyn_d_ptr (d_un := d.d_un)
 
 def Dyn.ep : EntryParser Dyn := ⟨Gen.prog_Dyn, Gen.size_Dyn, Dyn.ofVals⟩
 
@@ -200,10 +209,10 @@ def U64.ep : EntryParser Nat := ⟨Gen.prog_u64, Gen.size_u64, natOfVals⟩
 def VersionIndex.ep : EntryParser Nat :=
   ⟨Gen.prog_VersionIndex, Gen.size_VersionIndex, natOfVals⟩
 
-def VersionIndex.index (v : Nat) : Nat := v &&& Abi.VER_NDX_VERSION
-def VersionIndex.isLocal (v : Nat) : Bool := VersionIndex.index v == Abi.VER_NDX_LOCAL
-def VersionIndex.isGlobal (v : Nat) : Bool := VersionIndex.index v == Abi.VER_NDX_GLOBAL
-def VersionIndex.isHidden (v : Nat) : Bool := (v &&& Abi.VER_NDX_HIDDEN) != 0
+def VersionIndex.index (v : Nat) : Nat := Gen.acc_VersionIndex_index (v0 := v % 65536)
+def VersionIndex.isLocal (v : Nat) : Bool := Gen.acc_VersionIndex_is_local (v0 := v % 65536)
+def VersionIndex.isGlobal (v : Nat) : Bool := Gen.acc_VersionIndex_is_global (v0 := v % 65536)
+def VersionIndex.isHidden (v : Nat) : Bool := Gen.acc_VersionIndex_is_hidden (v0 := v % 65536)
 
 structure VerDef where
   vd_flags : Nat
